@@ -194,6 +194,19 @@ def run(rep, br, proofs, rng, tier):
         if noval(i) != noval(sm):
             c = dict(c); c["line"] = c["line"].replace(" skelvm ", " skelvmb ", 1)
             fails.append((c, "with value-less return statements the implementation differs from the specified semantics (SkelSem, returned values ignored): impl %s, spec %s" % (i, sm)))
+    # the same skeletons with every function literal written inside the try, catch or finally block of a try statement
+    # of the main script: where a function is written makes no difference to what it does (skeletons with a loop)
+    tcases = [c for c in cases if "(loop" in c["line"] and "(try" in c["line"]]
+    if tier == "quick": tcases = tcases[::3]
+    timpl, _ = vlib.run_impl([c["line"].replace(" skelvm ", " skelvmt ", 1) for c in tcases], timeout=3000)
+    lexical_compared = 0
+    for c in tcases:
+        i = timpl.get(c["id"])
+        if i is None: fails.append((c, "no output (function literals inside try statements)")); continue
+        lexical_compared += 1
+        if i != c["impl"]:
+            c2 = dict(c); c2["line"] = c["line"].replace(" skelvm ", " skelvmt ", 1)
+            fails.append((c2, "the functions behave differently when their literals are written inside a try statement of the main script: %s, outside %s" % (i, c["impl"])))
     for c, why in fails[:10]:
         rep.violation({"property": "C03", "kind": "oracle", "why": why, "case": c["line"], "impl": c["impl"], "sem": c["sem"], "model_vm": c["model"]})
     for c in cdiff[:10]:
@@ -206,18 +219,19 @@ def run(rep, br, proofs, rng, tier):
     nt = sum(1 for c in cases if nontrivial(c["args"], c["impl"]))
     rep.coverage.update({
         "evaluations": len(cases), "distinct_nontrivial": nt,
-        "rule": "all skeleton statements with at most %d nodes (blocks of at most 2 statements) over exit kinds log/break/continue/return/throw/runtime-error at every position, each placed after 0-2 completed try statements, inside loops, and inside called functions; plus try statements nested in the catch and finally blocks of try statements (every exit of the outer body x every exit of the inner body x inner shape x block) and a seeded sample of size %d skeletons; distinct by program text; every skeleton with a return inside a try statement is run a second time with value-less return statements (returned values ignored in the comparison); non-trivial = contains a try statement and a non-normal exit" % (maxn, maxn + 1),
+        "rule": "all skeleton statements with at most %d nodes (blocks of at most 2 statements) over exit kinds log/break/continue/return/throw/runtime-error at every position, each placed after 0-2 completed try statements, inside loops, and inside called functions; plus try statements nested in the catch and finally blocks of try statements (every exit of the outer body x every exit of the inner body x inner shape x block) and a seeded sample of size %d skeletons; distinct by program text; every skeleton with a return inside a try statement is run a second time with value-less return statements (returned values ignored in the comparison); skeletons with loops and try statements are run a third time with every function literal written inside the try, catch or finally block of a try statement of the main script; non-trivial = contains a try statement and a non-normal exit" % (maxn, maxn + 1),
         "samples": [cases[0]["line"], cases[len(cases)//2]["line"], cases[-1]["line"]],
         "exhaustive_up_to_nodes": maxn, "outcome_distribution": outcomes,
-        "value_less_return_runs_compared": bare_compared, "compilers_compared": len(cases), "compilers_differ": len(cdiff),
+        "value_less_return_runs_compared": bare_compared, "lexically_nested_runs_compared": lexical_compared, "compilers_compared": len(cases), "compilers_differ": len(cdiff),
         "disagreements": len(dis), "oracle_failures": len(fails)})
 
 def replay(payload, br):
     line = payload.get("case", "")
     if not line.startswith("(case"):
         print("replay:", payload.get("what")); return 1
-    impl, _ = vlib.run_impl([line]); sem, _ = vlib.run_model([line.replace(" skelvmb ", " skelvm ", 1).replace(" skelvm ", " skelsem ", 1)])
-    src, _ = vlib.run_impl([line.replace(" skelvmb ", " skelvm ", 1).replace(" skelvm ", " skelsrc ", 1)])
+    base = line.replace(" skelvmb ", " skelvm ", 1).replace(" skelvmt ", " skelvm ", 1)
+    impl, _ = vlib.run_impl([line]); sem, _ = vlib.run_model([base.replace(" skelvm ", " skelsem ", 1)])
+    src, _ = vlib.run_impl([base.replace(" skelvm ", " skelsrc ", 1)])
     for k, v in src.items(): print(v.replace("\\n", "\n").replace("_", " "))
     print("impl:", impl); print("spec:", sem)
     return 0 if impl == sem else 1
